@@ -167,7 +167,11 @@ package matcher
 //@ pred firstElemOK(x any) := istype(x, token.Token) || (istype(x, *MatchToken) && x.(*MatchToken) != nil)
 //@ pred firstOK(a []any) := forall k in 0..len(a) :: firstElemOK(a[k])
 //@ spec tokConf(me token.Token, x any) bool := (istype(x, *MatchToken) && x.(*MatchToken).Tok == me) || (istype(x, token.Token) && x.(token.Token) == me)
-//@ spec mtConf(me *MatchToken, x any) bool := istype(x, *MatchToken) && x.(*MatchToken).Tok == me.Tok && x.(*MatchToken).Lit == me.Lit
+//@ # mtConf: what the property needs (a committed alternative must not hide a later one that could match): a literal
+//@ # conflicts with the same literal and with its bare token. mtConfCode: what hasConflictMatchToken tests (bare
+//@ # tokens are skipped); the difference is the recorded known finding (a keyword literal listed before its token).
+//@ spec mtConfCode(me *MatchToken, x any) bool := istype(x, *MatchToken) && x.(*MatchToken).Tok == me.Tok && x.(*MatchToken).Lit == me.Lit
+//@ spec mtConf(me *MatchToken, x any) bool := mtConfCode(me, x) || (istype(x, token.Token) && x.(token.Token) == me.Tok)
 //@ spec meConf(m any, next []any) bool := istype(m, token.Token) ? (exists k in 0..len(next) :: tokConf(m.(token.Token), next[k])) :
 //@        (exists k in 0..len(next) :: mtConf(m.(*MatchToken), next[k]))
 //@ ufunc conflictU(me []any, next []any) bool
@@ -184,7 +188,7 @@ package matcher
 //@   assigns nothing
 //@   ensures [c29.literal-conflict] result == (exists k in 0..len(next) :: mtConf(me, next[k]))
 //@ loop hasConflictMatchToken#1
-//@   invariant forall k in 0..rangeindex+1 :: !mtConf(me, next[k])
+//@   invariant forall k in 0..rangeindex+1 :: !mtConfCode(me, next[k])
 //@ func hasConflictMe
 //@   requires firstElemOK(me) && firstOK(next)
 //@   assigns nothing
